@@ -19,6 +19,34 @@ CHECKS = {
                 tech="TLC trace validation of every device x every (mnemonic, addressing form) against Devices!Unavailable and AvrIsa",
                 text="All devices of the public table x all mnemonic/addressing forms; TLC requires error iff the device's documented flags take the form away, and otherwise exactly the words of the no-device encoding (one-word lds/sts on the reduced core).",
                 note=TB + "; flag semantics as documented on the DisabledOptions type; ldd/std on Tiny1x/Avr8l via ld/st mnemonics excluded as unspecified"),
+    "C02": dict(level="model_checking", ref="3 C02",
+                tech="TLC trace validation of whole-program builds against Assembler.tla (layout/emit state machine)",
+                text="All item sequences up to length 3 (thorough 4) over a 14-symbol layout alphabet x 3 device classes, plus seeded random programs of 5-60 items over 5 devices, each with a .dw table of its labels, are built by the real code; TLC recomputes every build with Assembler!Run (one location counter per segment type, .org gaps zero-filled, labels at the next item) and accepts only identical images, sizes and RAM usage.",
+                note=TB + "; .org not followed by a space-occupying item is not generated (property silent)"),
+    "C03": dict(level="model_checking", ref="3 C03",
+                tech="TLC trace validation of branch/jump placements against Assembler.tla + AvrIsa (Rel7/Rel12 legality and encoding)",
+                text="Forward and backward <branch, filler, target> programs for all 34 branch forms and rjmp/rcall at every boundary distance and every distance -70..70, with seven filler mixes (one- and two-word instructions, odd .db, .dw, .org gaps) and targets named by label and by pc expression; TLC requires success iff the displacement fits and the exact image otherwise.",
+                note=TB),
+    "C06": dict(level="model_checking", ref="3 C06",
+                tech="TLC trace validation of data directives against Assembler!DataFrom on exact (limb) integers",
+                text="Element lists of length 0..5 over the boundary values of each width (both ends, signed/unsigned), symbols, labels and ten strings (empty, non-ASCII, containing ; , //) for .db/.dw/.dd/.dq in code, EEPROM and data segments followed by a second item, and .byte in each segment; TLC recomputes bytes, padding and errors.",
+                note=TB + "; I64.tla limb arithmetic (its identities are checked by TLC in setup)"),
+    "C08": dict(level="model_checking", ref="3 C08",
+                tech="TLC trace validation of all well-formed conditional structures against the conditional stack of Assembler.tla",
+                text="Every well-formed nesting structure (if / elif* / else? / endif, nesting <= 3) up to 7 lines (thorough 9), instantiated with all-true, all-false and seeded truth assignments over literal, .equ and .define conditions, with marker instructions, messages, garbage text, .define and label definitions in the branches; TLC's reference (stack with taken flag) must give the same image, messages and error status.",
+                note=TB + "; ill-formed chains not generated"),
+    "C10": dict(level="model_checking", ref="3 C10",
+                tech="TLC trace validation of symbol programs and their single-line deletion/duplication mutants against Assembler.tla",
+                text="Seeded random programs over labels, .equ, .set, .def/.undef and uses in instructions and data, each line spelled in lower/upper/mixed case, plus every single-line deletion and every duplication with a specified outcome, plus hand-shaped corners; TLC's binding rules (global labels/.equ, sequential .set/.def) decide image or error.",
+                note=TB + "; cross-kind clashes, .equ redefinition, .def of a bound alias not generated"),
+    "C12": dict(level="model_checking", ref="3 C12",
+                tech="TLC trace validation of capacity boundary programs for every device row against Devices!Fits; part-definition files compared with the table by TLC",
+                text="Every device of the public table (and none) x flash/EEPROM/RAM x capacity-1/capacity/capacity+1 reached by instructions, data, reservations and .org, unknown and second device, reported sizes; TLC applies Fits to the exported rows. The figures of every shipped part-definition file are extracted by an independent scanner and TLC requires row = file.",
+                note=TB + "; the independent part-file scanner (regular expression over .equ NAME = value)"),
+    "C15": dict(level="model_checking", ref="3 C15",
+                tech="TLC trace validation of single-fault programs (error line must be the spec's fault line, also after shifting by 7 lines) and message placements",
+                text="5 base programs x every insertion position x 16 single-line faults, each built as is and shifted by 7 lines: TLC requires an error whose text contains the specification's fault line as an integer token both times; 768 placements of .message/.warning/.error in and around taken/untaken branches: order, text, own line numbers, unchanged images.",
+                note=TB + "; messages from macro bodies and lines inside included files excluded"),
 }
 
 TITLES = {}
